@@ -53,7 +53,7 @@ func runC13(p *Prog, r *Report) {
 	ruleInv(p, r, invFaceExtents())
 	r.Explain = append(r.Explain, "R-STATE: with P-FX (per-function exposed-read / must-write sets over struct fields, fixpoint over the VTA call graph), every field of the state-holding types of each reusable object that an entry method may read before writing it is classified with a reason; continuation methods may also read what the required initialiser writes on all its paths.")
 	r.Explain = append(r.Explain, "R-STALE: storage kept in a slice-typed field is re-extended past its current length in place (x.f = x.f[:n] after consulting cap(x.f)) only where the exposed elements are overwritten whole by copy() or cleared, or for the fields listed with the reason confirmed by reading; everywhere else growth goes through append or make, which hand out zeroed elements, so a reused object does not see the elements of its previous use.")
-	ruleStale(p, r, staleAllowed, 4)
+	ruleStale(p, r, staleAllowed, 0)
 	fx := NewFX(p)
 	fx.Run()
 	r.Count("fields_tracked", len(fx.fields))
